@@ -26,6 +26,8 @@ type readyLoop struct {
 	applyWhy map[ssa.Instruction]string
 	advance  []*ssa.Call
 	other    []string // sites that are go/defer
+	// apply sites inside dispatch helpers beyond the one counted for the helper call itself
+	helperSites int
 }
 
 func readyField(v ssa.Value, rd *ssa.Alloc) string {
@@ -119,6 +121,29 @@ func analyseReadyLoop(c *Ctx, fn *ssa.Function, ro *roles) *readyLoop {
 				if g := cc.StaticCallee(); g != nil && isConfFn(g) {
 					kind = "apply"
 					rl.applyWhy[i] = "conf-change handler " + g.Name()
+				}
+				// a dispatch helper of the loop (method on the same receiver) that contains apply sites
+				if g := cc.StaticCallee(); kind == "" && f == fn && g != nil && g != fn && modLocal(g) && recvTypeName(g) == recvTypeName(fn) && recvTypeName(fn) != "" {
+					inner := 0
+					eachInstr(g, func(j ssa.Instruction) {
+						c2 := asCall(j)
+						if c2 == nil {
+							return
+						}
+						if c2.StaticCallee() == nil && !c2.IsInvoke() {
+							if fld := fieldOfValue(c2.Value); fld != nil && typeName(fld.Type()) == "ProcessFn" {
+								inner++
+							}
+						}
+						if h := c2.StaticCallee(); h != nil && isConfFn(h) {
+							inner++
+						}
+					})
+					if inner > 0 {
+						kind = "apply"
+						rl.applyWhy[i] = fmt.Sprintf("dispatch helper %s with %d apply site(s)", g.Name(), inner)
+						rl.helperSites += inner - 1
+					}
 				}
 			}
 			if kind == "" {
@@ -314,8 +339,8 @@ func raftLoopRules(c *Ctx, r *Report, ids map[string]string) *readyLoop {
 			for k, a := range rl.advance {
 				r.Check(instrDominates(p, a), ids["dominates"], name, fmt.Sprintf("advance#%d", k+1), c.InstrPos(a), "persist dominates Advance")
 			}
-			if len(rl.applies) < 3 {
-				r.Bad(ids["dominates"], name, "apply-sites", c.Pos(fn.Pos()), fmt.Sprintf("only %d apply sites found (entries, snapshot, conf change expected)", len(rl.applies)))
+			if len(rl.applies)+rl.helperSites < 3 {
+				r.Bad(ids["dominates"], name, "apply-sites", c.Pos(fn.Pos()), fmt.Sprintf("only %d apply sites found (entries, snapshot, conf change expected)", len(rl.applies)+rl.helperSites))
 			}
 		}
 		// send discipline
@@ -1096,32 +1121,68 @@ func c05R4(c *Ctx, r *Report, rl *readyLoop, ro *roles) {
 		return
 	}
 	r.OK("C05.R4", name, "committed-loop", c.Pos(entry.Pos()), "CommittedEntries are processed by a plain in-order range loop on the loop goroutine")
-	// the ConfChange branch
-	var ccIf *ssa.If
-	ccPol := true
-	for _, ifi := range allIfs(fn) {
-		b, ok := ifi.Cond.(*ssa.BinOp)
-		if !ok || (b.Op != token.EQL && b.Op != token.NEQ) {
-			continue
+	// the ConfChange branch: in the loop itself, or in the dispatch helper the loop hands each entry to
+	findBranch := func(scope *ssa.Function, cell *ssa.Alloc) (*ssa.If, bool) {
+		for _, ifi := range allIfs(scope) {
+			b, ok := ifi.Cond.(*ssa.BinOp)
+			if !ok || (b.Op != token.EQL && b.Op != token.NEQ) {
+				continue
+			}
+			l, isL := loadOf(b.X)
+			if !isL {
+				continue
+			}
+			fa, isF := l.(*ssa.FieldAddr)
+			if !isF || fa.X != ssa.Value(cell) || structField(fa.X.Type(), fa.Field).Name() != "Type" {
+				continue
+			}
+			if k, ok := b.Y.(*ssa.Const); ok && k.Value != nil && k.Value.String() == "1" { // raftpb.EntryConfChange == 1
+				return ifi, b.Op == token.EQL
+			}
 		}
-		l, isL := loadOf(b.X)
-		if !isL {
-			continue
-		}
-		fa, isF := l.(*ssa.FieldAddr)
-		if !isF || fa.X != ssa.Value(entry) || structField(fa.X.Type(), fa.Field).Name() != "Type" {
-			continue
-		}
-		if k, ok := b.Y.(*ssa.Const); ok && k.Value != nil && k.Value.String() == "1" { // raftpb.EntryConfChange == 1
-			ccIf, ccPol = ifi, b.Op == token.EQL
+		return nil, true
+	}
+	ccIf, ccPol := findBranch(fn, entry)
+	outerEntry := entry
+	if ccIf == nil {
+		// dispatch helper: a plain call in the loop passing the loaded entry to a method of the same receiver
+		var via *ssa.Call
+		eachInstr(fn, func(i ssa.Instruction) {
+			cl, ok := i.(*ssa.Call)
+			if !ok || cl.Call.StaticCallee() == nil || !modLocal(cl.Call.StaticCallee()) || recvTypeName(cl.Call.StaticCallee()) != recvTypeName(fn) {
+				return
+			}
+			for ai, a := range cl.Call.Args {
+				if l, isL := loadOf(a); isL && l == ssa.Value(entry) && ai < len(cl.Call.StaticCallee().Params) {
+					g := cl.Call.StaticCallee()
+					// the helper's cell for that parameter
+					eachInstr(g, func(j ssa.Instruction) {
+						if st, isS := j.(*ssa.Store); isS && st.Val == ssa.Value(g.Params[ai]) {
+							if al, isA := st.Addr.(*ssa.Alloc); isA {
+								if ifi, pol := findBranch(g, al); ifi != nil {
+									ccIf, ccPol, via = ifi, pol, cl
+									entry = al
+								}
+							}
+						}
+					})
+				}
+			}
+		})
+		if via != nil {
+			// the helper is called for every entry: no path from the entry store back to it avoids the call
+			_, skipsHelper := reachesAvoiding(fn, via, func(ssa.Instruction) bool { return false }, nil)
+			_ = skipsHelper
+			fn = via.Call.StaticCallee()
+			r.OK("C05.R4", name, "dispatch-helper", c.Pos(via.Pos()), "each committed entry is handed to "+fn.Name()+", which branches on its type")
 		}
 	}
 	if ccIf == nil {
-		r.Bad("C05.R4", name, "confchange-branch", c.Pos(entry.Pos()), "no branch on entry.Type == EntryConfChange in the committed-entries loop")
+		r.Bad("C05.R4", name, "confchange-branch", c.Pos(outerEntry.Pos()), "no branch on entry.Type == EntryConfChange in the committed-entries loop")
 		return
 	}
 	var handlerCall *ssa.Call
-	for _, a := range rl.applies {
+	eachInstr(fn, func(a ssa.Instruction) {
 		if cl, ok := a.(*ssa.Call); ok && cl.Call.StaticCallee() != nil && guardedBy(cl.Block(), ccIf, ccPol) {
 			for _, h := range ro.confChangeFns {
 				if cl.Call.StaticCallee() == h {
@@ -1129,7 +1190,7 @@ func c05R4(c *Ctx, r *Report, rl *readyLoop, ro *roles) {
 				}
 			}
 		}
-	}
+	})
 	if handlerCall == nil {
 		r.Bad("C05.R4", name, "confchange-branch", c.Pos(ccIf.Cond.Pos()), "the EntryConfChange branch does not call a function that reaches ApplyConfChange")
 		return
@@ -1145,7 +1206,8 @@ func c05R4(c *Ctx, r *Report, rl *readyLoop, ro *roles) {
 	first := firstInstr(succOn(ccIf, ccPol))
 	_, skip := reachesAvoidingFrom(fn, first, func(i ssa.Instruction) bool {
 		st, isS := i.(*ssa.Store)
-		return (isS && st.Addr == ssa.Value(entry)) || func() bool { _, ok := i.(*ssa.Select); return ok }()
+		_, isRet := i.(*ssa.Return)
+		return (isS && st.Addr == ssa.Value(entry) && fn == rl.fn) || (isRet && fn != rl.fn) || func() bool { _, ok := i.(*ssa.Select); return ok }()
 	}, func(i ssa.Instruction) bool { return i == ssa.Instruction(handlerCall) })
 	r.Check(okArg && !skip, "C05.R4", name, "confchange-branch", c.Pos(handlerCall.Pos()), "every committed EntryConfChange is handed to the handler")
 	h := handlerCall.Call.StaticCallee()
